@@ -89,6 +89,21 @@ pub fn check(c: &Case) -> Outcome {
                 Ran::Done(r) => r,
                 o => return fail(format!("`{src}`: {}", o.show())),
             };
+            // the same text again - as the same literal, and handed over as a variable - is accepted or rejected the same way
+            for (src2, vars2) in [(src.clone(), vec![]), ("duration(s)".to_string(), vec![("s".to_string(), V::Str(text.clone()))])] {
+                let again = match sut::run_src(&src2, &vars2) {
+                    Ran::Done(r) => r,
+                    o => return fail(format!("`{src2}` {vars2:?}: {}", o.show())),
+                };
+                let agree = match (&got, &again) {
+                    (R::Val(a), R::Val(b)) => a.dur_total_ns() == b.dur_total_ns(),
+                    (R::Err(..), R::Err(..)) => true,
+                    _ => false,
+                };
+                if !agree {
+                    return fail(format!("`{src}` gave {} the first time; evaluating the same text again (`{src2}`) gives {}", got.show(), again.show()));
+                }
+            }
             match (&p, &got) {
                 (_, R::Panic(pn)) => fail(format!("`{src}`: {}", pn.short())),
                 (Parsed::Malformed(why), R::Val(v)) => fail(format!("`{src}` is not a sequence of <decimal number><unit> terms ({why}) but is accepted as {:?} ns", v.dur_total_ns())),
